@@ -7,8 +7,9 @@
 (* free-XOR algebra).  Atoms:                                              *)
 (*    <<"R">>               the global offset                              *)
 (*    <<"B", w>>            the fresh L0 of input wire w                   *)
-(*    <<"K1", x, t>>        pi(2x xor t)   = encryptHalf(x, t)             *)
-(*    <<"K2", a, b, t>>     pi(2a xor 4b xor t) = the pad of encrypt/decrypt*)
+(*    <<"K1", k, x, t>>     pi_k(2x xor t)   = encryptHalf(x, t) under AES key k*)
+(*    <<"K2", k, a, b, t>>  pi_k(2a xor 4b xor t) = the pad of encrypt/decrypt*)
+(*    <<"X", n, 0>>         garbage injected by a fault (TwoParty.tla)      *)
 (* The point-and-permute bit S is linear: S(R) = 1, S of every other atom  *)
 (* is chosen nondeterministically when the atom is created, so TLC visits  *)
 (* every combination of permute bits.                                      *)
@@ -23,8 +24,11 @@ CONSTANTS NIn, MaxGates, Ops, FreeS
 XorL(x, y) == (x \ y) \cup (y \ x)
 R == {<<"R">>}
 Zero == {}
-K1(x, t) == {<<"K1", x, t>>}
-K2(a, b, t) == {<<"K2", a, b, t>>}
+KeyG == "k"                  \* the garbler's AES key
+K1k(k, x, t) == {<<"K1", k, x, t>>}
+K2k(k, a, b, t) == {<<"K2", k, a, b, t>>}
+K1(x, t) == K1k(KeyG, x, t)
+K2(a, b, t) == K2k(KeyG, a, b, t)
 If(c, x) == IF c THEN x ELSE Zero
 
 VARIABLES gates,   \* the circuit: sequence of [op, a, b]; output wire of gate i is NIn + i - 1
@@ -35,9 +39,10 @@ VARIABLES gates,   \* the circuit: sequence of [op, a, b]; output wire of gate i
           tab,     \* transmitted rows per gate
           gid, eid,\* the garbler's and the evaluator's tweak counters
           inp,     \* input bits
-          act      \* evaluator: wire -> active label
+          act,     \* evaluator: wire -> active label
+          ekey     \* the AES key the evaluator uses (= KeyG unless corrupted in transit)
 
-vars == <<gates, phase, g, sb, lab, tab, gid, eid, inp, act>>
+vars == <<gates, phase, g, sb, lab, tab, gid, eid, inp, act, ekey>>
 
 NWires == NIn + Len(gates)
 OutWire(i) == NIn + i - 1
@@ -64,13 +69,13 @@ Plain == PlainUpTo(Len(gates), inp)
 Init == /\ gates = <<>> /\ phase = "build" /\ g = 1
         /\ sb = (<<"R">> :> 1)
         /\ lab = <<>> /\ tab = <<>> /\ gid = 0 /\ eid = 0
-        /\ inp = <<>> /\ act = <<>>
+        /\ inp = <<>> /\ act = <<>> /\ ekey = KeyG
 
 AddGate == /\ phase = "build" /\ Len(gates) < MaxGates
            /\ \E op \in Ops : \E a \in 0..(NWires - 1) : \E b \in 0..(NWires - 1) :
                 /\ (op = "INV" => b = a)
                 /\ gates' = Append(gates, [op |-> op, a |-> a, b |-> b])
-           /\ UNCHANGED <<phase, g, sb, lab, tab, gid, eid, inp, act>>
+           /\ UNCHANGED <<phase, g, sb, lab, tab, gid, eid, inp, act, ekey>>
 
 \* makeLabels for every input wire; input values; permute bits of the input labels
 StartGarble ==
@@ -79,7 +84,7 @@ StartGarble ==
     /\ lab' = [w \in 0..(NIn - 1) |-> <<{<<"B", w>>}, XorL({<<"B", w>>}, R)>>]
     /\ \E v \in [0..(NIn - 1) -> Bit] : inp' = v
     /\ phase' = "garble" /\ g' = 1
-    /\ UNCHANGED <<gates, tab, gid, eid, act>>
+    /\ UNCHANGED <<gates, tab, gid, eid, act, ekey>>
 
 Idx2(x, y, f) == 2 * Sof(x, f) + Sof(y, f)
 
@@ -148,45 +153,52 @@ GarbleGate ==
                     /\ gid' = gid + 1
                     /\ sb' = sf
     /\ g' = g + 1
-    /\ UNCHANGED <<gates, phase, eid, inp, act>>
+    /\ UNCHANGED <<gates, phase, eid, inp, act, ekey>>
 
 \* the evaluator is handed the label that encodes each input bit
 StartEval ==
     /\ phase = "garble" /\ g > Len(gates)
     /\ act' = [w \in 0..(NIn - 1) |-> lab[w][inp[w] + 1]]
     /\ phase' = "eval" /\ g' = 1
-    /\ UNCHANGED <<gates, sb, lab, tab, gid, eid, inp>>
+    /\ UNCHANGED <<gates, sb, lab, tab, gid, eid, inp, ekey>>
 
-\* Circuit.Eval, one gate
+\* Circuit.Eval, one gate.  Labels the evaluator derives from corrupted data
+\* contain atoms nobody has seen; their permute bits are chosen here.
+EvalOut(gt, a, b, row) ==
+    CASE gt.op \in {"XOR", "XNOR"} -> XorL(a, b)
+      [] gt.op = "AND" ->
+           LET wg == XorL(K1k(ekey, a, eid), If(S(a) = 1, row[1]))
+               we == XorL(K1k(ekey, b, eid + 1), If(S(b) = 1, XorL(row[2], a)))
+           IN XorL(wg, we)
+      [] gt.op = "OR" ->
+           LET index == 2 * S(a) + S(b)
+               c == IF index > 0 THEN row[index] ELSE Zero
+           IN XorL(c, K2k(ekey, a, b, eid))
+      [] gt.op = "INV" ->
+           LET index == S(a)
+               c == IF index > 0 THEN row[index] ELSE Zero
+           IN XorL(c, K2k(ekey, a, Zero, eid))
+\* the run-time checks of Circuit.Eval on the received rows
+RowsUsable(gt, a, b, row) ==
+    CASE gt.op = "AND" -> Len(row) = 2
+      [] gt.op = "OR" -> 2 * S(a) + S(b) <= Len(row)
+      [] gt.op = "INV" -> S(a) <= Len(row)
+      [] OTHER -> TRUE
 EvalGate ==
     /\ phase = "eval" /\ g <= Len(gates)
     /\ LET gt == gates[g]
-           a == act[gt.a]
-           b == act[gt.b]
-           row == tab[g]
-           o == OutWire(g)
-       IN
-       CASE gt.op \in {"XOR", "XNOR"} ->
-              /\ act' = act @@ (o :> XorL(a, b)) /\ UNCHANGED eid
-         [] gt.op = "AND" ->
-              LET j0 == eid  j1 == eid + 1
-                  wg == XorL(K1(a, j0), If(S(a) = 1, row[1]))
-                  we == XorL(K1(b, j1), If(S(b) = 1, XorL(row[2], a)))
-              IN /\ act' = act @@ (o :> XorL(wg, we)) /\ eid' = eid + 2
-         [] gt.op = "OR" ->
-              LET index == 2 * S(a) + S(b)
-                  c == IF index > 0 THEN row[index] ELSE Zero
-              IN /\ act' = act @@ (o :> XorL(c, K2(a, b, eid))) /\ eid' = eid + 1
-         [] gt.op = "INV" ->
-              LET index == S(a)
-                  c == IF index > 0 THEN row[index] ELSE Zero
-              IN /\ act' = act @@ (o :> XorL(c, K2(a, Zero, eid))) /\ eid' = eid + 1
+           out == EvalOut(gt, act[gt.a], act[gt.b], tab[g])
+           new == out \ DOMAIN sb
+       IN /\ RowsUsable(gt, act[gt.a], act[gt.b], tab[g])
+          /\ act' = act @@ (OutWire(g) :> out)
+          /\ \E f \in [new -> SChoices] : sb' = sb @@ f
+          /\ eid' = eid + (CASE gt.op = "AND" -> 2 [] gt.op \in {"OR", "INV"} -> 1 [] OTHER -> 0)
     /\ g' = g + 1
-    /\ UNCHANGED <<gates, phase, sb, lab, tab, gid, inp>>
+    /\ UNCHANGED <<gates, phase, lab, tab, gid, inp, ekey>>
 
 Finish == /\ phase = "eval" /\ g > Len(gates)
           /\ phase' = "done"
-          /\ UNCHANGED <<gates, g, sb, lab, tab, gid, eid, inp, act>>
+          /\ UNCHANGED <<gates, g, sb, lab, tab, gid, eid, inp, act, ekey>>
 
 Next == AddGate \/ StartGarble \/ GarbleGate \/ StartEval \/ EvalGate \/ Finish
 Spec == Init /\ [][Next]_vars
